@@ -59,6 +59,14 @@ pub fn cli_main() {
         std::process::exit(2);
     };
     let mut ctx = Ctx::new(p.id, tier, seed);
+    // a fatal signal while a generated case runs becomes a VIOLATION line naming the case; a run-away
+    // allocation (an endless loop that keeps allocating) hits the address-space limit instead of the
+    // machine's memory
+    props::c11::crash::install(p.id);
+    unsafe {
+        let lim = libc::rlimit { rlim_cur: 40 << 30, rlim_max: 40 << 30 };
+        libc::setrlimit(libc::RLIMIT_AS, &lim);
+    }
     if let Some(path) = replay {
         ctx.strict = true;
         let v = match engine::read_replay(std::path::Path::new(&path)) {
